@@ -122,8 +122,10 @@ func (p *proxy) call(ctx erpc.UnknownCallCtx) (interface{}, *erpc.Status) {
 	}
 	stat := callcmd.Status()
 	// a status the backend replied with passes unchanged; a status of the connection error range
-	// that was produced on this side (no reply arrived) means the backend could not be reached
-	if !stat.OK() && stat.Code() < 200 && stat.Code() > 99 && callcmd.InputMeta() == nil {
+	// that was produced on this side (the call was never sent, or no reply arrived) means the
+	// backend could not be reached
+	_, sent := callcmd.TraceSession()
+	if !stat.OK() && stat.Code() < 200 && stat.Code() > 99 && !(sent && callcmd.InputMeta() != nil) {
 		// the forwarder may hand back a status shared with other calls: do not rewrite it in place
 		stat = erpc.NewStatus(erpc.CodeBadGateway, erpc.CodeText(erpc.CodeBadGateway), stat.Cause())
 	}
